@@ -3,7 +3,7 @@
 EXTENDS OdmlSaveOps, IOUtils
 Obs == ndJsonDeserialize(IOEnv.OBS_FILE)
 VARIABLE l
-SigOf(o) == <<o.c.entry, o.c.fmt, o.c.validity, o.c.variant, o.c.fault, o.c.file, o.c.opt, o.c.wmode, o.out, o.exc>>
+SigOf(o) == <<o.c.entry, o.c.fmt, o.c.validity, o.c.variant, o.c.fault, o.c.file, o.c.opt, o.c.wmode, o.c.prior, o.c.tname, o.out, o.exc>>
 Say(tag, prop, clause, o) == PrintT(ToJson(<<tag, prop, clause, o.k, SigOf(o)>>))
 Chk(P, prop, clause, o) == IF P THEN TRUE ELSE Say("VIOL", prop, clause, o)
 Check(i) == LET o == Obs[i] IN
